@@ -93,6 +93,40 @@ def shard_valid(ctx, arg):
                 ctx.sample({"valid_method": [(o, l, n) for o, l, n in m.instr][:20]})
 
 
+def shard_feff(ctx, arg):
+    """exhaustive: opcodes 0xFE / 0xFF (const-method-handle / const-method-type, DEX 039) with EVERY register byte, inside valid code"""
+    from androguard.core import dex
+    from vf.model import dexw as W
+    lo, hi = arg
+    for aa in range(lo, hi):
+        model = W.DexModel()
+        model.version = b"039"
+        c = model.add_class(cfg.CLS)
+        # raw units: the two instructions with register byte aa, surrounded by ordinary instructions
+        units = [0x0012, 0xFE | (aa << 8), 0x0000, 0x1012, 0xFF | (aa << 8), 0x0001, 0x0000, 0x0112, 0x000E]
+        want = [(0, 2), (2, 4), (6, 2), (8, 4), (12, 2), (14, 2), (16, 2)]
+        c.add_method("m", "V", (), W.ACC_STATIC | W.ACC_PUBLIC, W.Code(256, 0, 0, units))
+        data = W.write_dex(model)
+        ctx.ev()
+        ctx.count("feff_register_bytes")
+        wit = {"register_byte": aa, "units": ["%04x" % u for u in units]}
+        try:
+            dx = dex.DEX(data)
+            em = dx.get_encoded_methods_class_method(cfg.CLS, "m")
+            got = [(i, ins.get_length()) for i, ins in em.get_instructions_idx()]
+            names = [ins.get_name() for ins in em.get_instructions()]
+        except dex.InvalidInstruction as e:
+            ctx.violation("opcode-fe-ff-register-byte-rejected", "valid code with const-method-handle/type and some register byte is rejected", dict(wit, exc=exc_str(e)))
+            continue
+        except Exception as e:
+            ctx.violation("valid-code-raises", "disassembly of valid code raises", dict(wit, exc=exc_str(e)))
+            continue
+        if got != want or names[1] != "const-method-handle" or names[3] != "const-method-type":
+            ctx.violation("opcode-fe-ff-register-byte-misdecoded", "const-method-handle/type with some register byte is decoded as something else (stream differs)", dict(wit, got=got, names=names, want=want))
+        ctx.sig("feff", aa >> 4)
+    ctx.count("exhaustive_feff", hi - lo)
+
+
 def check_stream(ctx, dex, cm, buf, tag, budget):
     """run the real sweep over arbitrary bytes under the step budget"""
     size = len(buf) // 2
@@ -255,12 +289,14 @@ def run(ctx):
     nv = 60 if ctx.quick else 4000
     nh = 6000 if ctx.quick else 400000
     args = [["shard_valid", [i, nv // 16 + 1]] for i in range(16)] + [["shard_hostile", [i, nh // 16 + 1]] for i in range(16)]
+    args += [["shard_feff", [i * 64, (i + 1) * 64]] for i in range(4)]
     files = shipped_dex_files()
     if ctx.quick:
         files = [f for f in files if os.path.getsize(f) < 1000000]
     args += [["shard_shipped", f] for f in files]
     ctx.run_shards(MOD, "dispatch", args, timeout=3000)
     ctx.require_counter("valid_methods_swept", 100)
+    ctx.require_counter("feff_register_bytes", 256)
     ctx.require_counter("hostile_buffers_swept", 1000)
     ctx.require_counter("shipped_methods_swept", 50)
     ctx.require_counter("invalid_instruction_reported", 100)
